@@ -165,7 +165,7 @@ theorem modify_refines (pool : List Bytes) (hp : Pool pool) (s : Store) (hg : Go
 theorem search_users_refines (pool : List Bytes) (hp : Pool pool) (s : Store) (hg : Good pool s) (d : Bytes) (hd : d ∈ pool)
     (base : Bytes) (hroute : routeSearch s base = .users) :
     search s base (paren d) = specLookup s.users d := by
-  unfold search specLookup
+  unfold search searchVia specLookup
   rw [hroute]
   simp only
   cases h : hasDN s.users d with
@@ -232,7 +232,7 @@ theorem lookup_eq (pool : List Bytes) (hp : Pool pool) (d : Bytes) (hd : d ∈ p
 theorem search_groups_refines (pool : List Bytes) (hp : Pool pool) (s : Store) (hg : Good pool s) (d : Bytes) (hd : d ∈ pool)
     (base : Bytes) (hroute : routeSearch s base = .groups) (hm : NoMemberHit d s.groups) :
     search s base (paren d) = specLookup s.groups d := by
-  unfold search specLookup
+  unfold search searchVia specLookup
   rw [hroute]
   simp only
   rw [findMembers_none (paren d) s.groups hm]
@@ -247,7 +247,7 @@ theorem search_generic_refines (pool : List Bytes) (hp : Pool pool) (s : Store) 
     search s d filter =
       (let es := s.users.filter (fun e => e.dn == d) ++ s.groups.filter (fun e => e.dn == d)
        if es.isEmpty then (ResultNoSuchObject, []) else (ResultSuccess, es)) := by
-  unfold search
+  unfold search searchVia
   rw [hroute]
   simp only [hsub, if_true]
   rw [lookup_eq pool hp d hd s.users hg.udn hg.unodup, lookup_eq pool hp d hd s.groups hg.gdn hg.gnodup]
